@@ -303,7 +303,7 @@ impl Property for C02 {
     }
     fn describe(&self) -> Describe {
         Describe {
-            rule: "case = generated authoring program (1-4 pages: sizes, rotation, text in the standard fonts with delimiters and non-ASCII, paths, colours, line state, q/cm/Q blocks, raw RGB/grey images, opacity, patterns, shadings, form XObjects, notes, fields, outline, info) x writer configuration (table / xref stream / object streams x compression x version) x sink plan (fault-free | short writes; 1 in 4 behind the BufWriter of Document::save) x source plan (fault-free | short reads) x reader preset. Reference = the view (page count, boxes, rotation, decoded content bytes, extracted text, images, annotation contents, info strings, field values, outline titles) of the fault-free classic/uncompressed run. The configuration under test must give the identical view in the library's reader, and the independent reader must agree on page count, boxes, rotation, content bytes and images. non-trivial = at least one page has content; distinct = digest of (reference view, configuration).".into(),
+            rule: "case = generated authoring program (1-4 pages: sizes, rotation, text in the standard fonts with delimiters and non-ASCII, paths whose operands come one time in five from the edges of the number formatter's domain (negative, strictly between -1 and 0, tiny, >= 1000, integral), colours, line state, q/cm/Q blocks, raw RGB/grey images, opacity, patterns, shadings, form XObjects, notes, fields, outline, info) x writer configuration (table / xref stream / object streams x compression x version) x sink plan (fault-free | short writes; 1 in 4 behind the BufWriter of Document::save) x source plan (fault-free | short reads) x reader preset. Reference = the view (page count, boxes, rotation, decoded content bytes, extracted text, images, annotation contents, info strings, field values, outline titles) of the fault-free classic/uncompressed run. For the reference run the content read back is also held against the authoring program itself: effective fill/stroke colour and line width at every painting operator (graphics-state model), and the geometry of every painted path (each m/l/c/re/h operand and the cm of a transformed rectangle within the documented two-decimal rounding; circles by their on-curve points). The configuration under test must give the identical view in the library's reader, and the independent reader must agree on page count, boxes, rotation, content bytes and images. non-trivial = at least one page has content; distinct = digest of (reference view, configuration).".into(),
             assumptions: vec![
                 "transport part only: whether parse(serialize_ops(ops)) == ops is C21 (pure), not decided here".into(),
                 "the independent reader (refpdf) is written for this harness; no third-party PDF implementation is installed".into(),
